@@ -213,7 +213,7 @@ void generatePlan(uint64_t seed, const GenOptions &opt, Plan &P)
         s.client = int(R.below(uint64_t(c.nclients)));
         for (int j = 0; j < 6; j++) s.a[j] = uint32_t(R.next() & 0x7fffffff);
         if (s.a[5] == 999) s.a[5] = 998;
-        if (s.op == "satpart") s.a[4] = 0;      // by events (by levels: known finding, probe plan only)
+        if (s.op == "satpart") s.a[4] = 0;      // by events (by levels: KF-C20-2, probe plans only)
         if (s.op == "masscopy" && s.a[2] == 777) s.a[2] = 776;
         if (s.op == "masscopy" && opt.thorough && R.chance(1, 4)) s.a[2] = 777;
         if (s.op == "hoard" && s.a[2] == 777) s.a[2] = 776;
